@@ -345,8 +345,10 @@ pub fn run_case(tier: &str, seed: u64, idx: u64) -> CaseOut {
     let combo = j % (n_pos * 3);
     let (kind, class, nth) = pos[(combo / 3) as usize];
     let mode = modes[(combo % 3) as usize];
-    // every fourth combination reports the error only after the call has taken effect
-    let after_effect = kind.is_mutating() && (combo / 3) % 4 == 1;
+    // (SimFs can also report an error *after* applying a mutating call. That model is not used: a
+    // rename that happens and then reports failure goes beyond 'the operation fails'; the only
+    // error-after-effect in the enumeration is a failing flush, which is a call of its own.)
+    let after_effect = false;
     let fault = Fault { kind, class, nth, mode, after_effect };
     let ctx = json!({"history": history, "config": script.cfg.describe(), "fault": {"call": kind.name(), "on": class.name(), "occurrence": nth,
         "of_about": pilot.counts.get(&(kind, class)), "mode": mode.name(), "error_reported_after_effect": after_effect}});
